@@ -5,7 +5,7 @@ NOT_APPLICABLE = {
            "threads or multiprocessing symbolically, and a sequential stub would decide one schedule only (DESIGN §4 C13)",
 }
 ENGINES = [
-    {"name": "pysym", "path": "vf/pysym", "serves_properties": ["C17", "C07", "C06", "C09", "C10", "C12", "C04", "C18", "C08", "C15", "C01", "C14"],
+    {"name": "pysym", "path": "vf/pysym", "serves_properties": ["C17", "C07", "C06", "C09", "C10", "C12", "C04", "C18", "C08", "C15", "C01", "C14", "C16"],
      "kind_free_text": "bounded path-forking symbolic interpreter over the AST of the real py7zr sources (re-parsed "
                        "from /repo on every run), z3 bit-vectors / integers / ropes; solver verdict per path"},
 ]
@@ -23,6 +23,18 @@ WR_NOTE = ("codec libraries replaced by a contract stub (consumes the source, wr
            "abstraction; the independent reference reader/writer in /verif is the oracle; session shapes are an enumerated bound, "
            "all sizes/CRCs/timestamps symbolic; payload bytes and real codecs are outside")
 CHECKS = {
+    "C16": dict(engine=B, ref="DESIGN.md §4 C16",
+                technique="bounded symbolic execution of the real check_archive_path/is_path_valid/canonical_path/is_relative_to "
+                          "and _sanitize_archive_arcname from the AST over symbolic path components / characters; z3 decides "
+                          "agreement with an independent lexical definition",
+                text="For every name of up to 5 (6) components over {'', '.', '..', a, b, 'c:', the internal probe directory name} "
+                     "(so leading '/', '//', trailing '/', doubled separators are covered) the verdict of check_archive_path equals "
+                     "the independent definition (reject iff absolute or the depth goes negative); for every string of up to 5 (7) "
+                     "characters over {'/', ':', '.', 'a', 'C', backslash} _sanitize_archive_arcname returns a name that is not "
+                     "absolute and has no drive prefix, or raises AbsolutePathError; the writestr/writef gate itself (ValueError, "
+                     "state unchanged) is obligation C15.badname.",
+                note="pathlib pure-path operations are a model validated against real PurePosixPath on the whole alphabet each run; "
+                     "component alphabet and length are the bound; random long Unicode names and the Windows flavour are outside"),
     "C01": dict(engine=B, ref="DESIGN.md §4 C01",
                 technique="bounded symbolic execution of the real buffering kernels from the AST in a rope domain (content-abstract "
                           "byte strings with symbolic, unbounded lengths) and of the real create session + reader on its header; z3 "
